@@ -169,12 +169,13 @@ def r16_2(ctx):
                 alpha = src(ldef.args[0])
             for t, pol in atoms:
                 ti = inline_at(cfg, rd, r.id, t, depth=1, stop=(p0, d0, le, alpha or "", "self"))
+                from ..terms import canon
                 txt = src(ti)
-                if pol and f"abs({le}.directional_derivative) <= -self.c2 * {d0}" == txt:
+                if pol and canon(f"abs({le}.directional_derivative) <= -self.c2 * {d0}") == canon(ti):
                     strong = True
                 elif pol and "self.c2" in txt and f"{le}.directional_derivative" in txt:
                     weak = True
-                if not pol and alpha and f"{le}.value > {p0} + self.c1 * {alpha} * {d0}" in txt:
+                if not pol and alpha and canon(f"{le}.value > {p0} + self.c1 * {alpha} * {d0}") in canon(ti):
                     armijo = True
             why = []
             if not strong:
